@@ -51,6 +51,22 @@ CLAIMED = {
             "For each enumerated leading-axis layout z3 proves op(X)[b,c] = single_image_op(X[b,c]) for ALL entries, and vmap(layer)(X)[b] = layer(X[b]) "
             "plus direct independence from the other batch entries, for ConvContract, VN nonlinearity, MaxNormPool, scalar GroupNorm, ConvBlock, a tiny ResNet.",
             "Reals; fixed seeded layer parameters; bounded shapes; large intermediate polynomials are let-abstracted (def atoms, refined on demand).", "4/C14"),
+    "C15": (JX + "+" + XH, "CrossHair on the real time_series_idxs (symbolic T,p,f,dt); symbolic execution of the jaxprs of times_series_to_multi_images / batch_time_series, z3 (QF_LRA) per configuration",
+            "CrossHair confirms the index arithmetic over all paths for symbolic (T,p,f,dt) within bounds; for each enumerated (T,p,f,dt,s,downsample, "
+            "constants, trajectories) z3 proves every input/target block equals the specified gather for ALL field values.",
+            "CrossHair: jnp replaced by a lazy shim (validated against jnp); p,f<=6, dt<=4, T<=48.  JXSMT part: T<=8 (12), sampled cells.", "4/C15"),
+    "C16": (JX, "symbolic execution of the jaxprs of autoregressive_step / autoregressive_map with the model as an uninterpreted function; z3 (QF_UFLRA)",
+            "For each enumerated (signature, n, past) z3 proves the rollout equals n explicit applications with the sliding-window update for EVERY model "
+            "(uninterpreted function of the whole input) and all inputs.",
+            "n<=3 (5), past<=3 (4); the model reads its input by type (canonical order); replay uses a fixed generic nonlinear model.", "4/C16"),
+    "C17": (JX, "symbolic execution of the jaxpr of get_batches with a symbolic permutation (boolean permutation-matrix variables); z3 per (L,B,devices)",
+            "For each enumerated (L, B, device count, number of co-batched multi-images) z3 proves for EVERY permutation that slot (i,r) of every multi-image "
+            "and type holds sample pi(iB+r), floor(L/B) batches, device axis = reshape; identity order without a key.",
+            "L<=6 (8); random.permutation stubbed by its contract (returns a permutation); jax's PRNG not analysed.", "4/C17"),
+    "C18": (JX, "symbolic execution of the jaxprs of the three losses vs. their written-out definitions; z3 (QF_NRA); lemma-based non-negativity",
+            "For each enumerated type set / insertion-order pair / jit history z3 proves each loss equals its definition for ALL predictions and targets, "
+            "is 0 on equal arguments, >= 0, invariant under every g, and the per-step losses sum to the total.",
+            "Reals; batch<=2, steps<=2(3), tiny images; reduce='max' decided under a strict-maximum assumption.", "4/C18"),
 }
 
 NOT_YET = {}
